@@ -123,7 +123,7 @@ class C08(Prop):
         delay(0) deliver at the first poll.  No model (the chain model has the plain clock): oracle only."""
         out = []
         for fl in ("local", "threads"):
-            for n in (1, 2, 3, 5):
+            for n in (1, 2, 3, 5, 40, 100):
                 for wrap in ([], [["map", "add1"]], [["filter", "true"]]):
                     for src in (["interval", "0"], ["intervalat", "0", "0"], ["intervalat", "2", "0"]):
                         pipe = ["take", str(n)] + [src]
@@ -143,12 +143,20 @@ class C08(Prop):
             n = int(pipe[1])
             add = 1 if pipe[2][0] == "map" else 0
         got = []
+        src = case.field("pipe")[0]
+        while isinstance(src, list) and src and src[0] not in ("interval", "intervalat"):
+            src = src[-1]
+        first = int(src[1]) if src[0] == "intervalat" else 0
         for k in range(len(case.events)):
             b = lines.get(k) or ""
             if b in ("PANIC", "HANG"):
                 return {"kind": b.lower(), "event": k, "detail": b}
             if b.startswith("o="):
-                got += tg.parse_suffix(b)[0]
+                outs, kv = tg.parse_suffix(b)
+                if outs and kv.get("t", 0) < first:
+                    return {"kind": "realtimer-early", "event": k,
+                            "detail": f"{outs} delivered at t={kv.get('t')}, the first tick is due at {first}"}
+                got += outs
         want = [f"N{i + add}" for i in range(n)] + ["C"]
         last = len(case.events) - 1
         _, kv = tg.parse_suffix(lines.get(last) or "")
@@ -314,6 +322,8 @@ class C08(Prop):
         return f"{failure['kind']}|time|{case.field('pipe')[0][0]}"
 
     def shrink_candidates(self, case):
+        if case.field("realtimer"):
+            return []      # kept as generated: without its `take` a zero-period interval never comes back (nor does its model)
         cands = [c for c in tg.time_shrink(case)
                  if c.field("pipe")[0][0] == case.field("pipe")[0][0]]
         cands += tg.script_shrink(case)
